@@ -129,45 +129,66 @@ pub async fn search(cx: &mut Context<'_>, command: &SearchCommand) -> Result<Ans
             )
         })?;
         // Over-fetch: the filters below are applied after scoring, so the
-        // window has to be wide enough to survive them.
-        for (seq, score) in index.search_advanced(&term, (limit + offset).saturating_mul(4), None) {
-            if score < threshold as f32 {
-                continue;
+        // window has to be wide enough to survive them. How many candidates
+        // they drop depends on things the caller must not be able to measure —
+        // above all on how many better-scoring elements it may not read — so a
+        // fixed window would let hidden elements push readable ones out of the
+        // answer (§104). The window is widened until it yields as many
+        // survivors as it was meant to hold, or the index has nothing more.
+        let wanted = (limit + offset).saturating_mul(4).max(1);
+        let mut window = wanted;
+        let kept = loop {
+            let scored = index.search_advanced(&term, window, None);
+            let exhausted = scored.len() < window
+                || scored
+                    .last()
+                    .is_some_and(|(_, score)| *score < threshold as f32);
+            let mut kept: Vec<(f32, Json)> = Vec::new();
+            for (seq, score) in scored {
+                if score < threshold as f32 {
+                    continue;
+                }
+                let id = ElementId::new(kind, seq);
+                let Some(element) = cx.load(id).await? else {
+                    continue;
+                };
+                if element.space() != cx.space || !element.is_active() {
+                    continue;
+                }
+                // The redacted view `load` cached, not a fresh render: a search
+                // snippet is a read, and a mask that hid a field from FIND must
+                // hide it from SEARCH too (§105).
+                let rendered = cx.view_of(id);
+                if let Some(expected) = &with_type
+                    && rendered["schema_ref"].as_str() != Some(expected.as_str())
+                {
+                    continue;
+                }
+                if let Some(expected) = &with_predicate
+                    && rendered["predicate_ref"].as_str() != Some(expected.as_str())
+                {
+                    continue;
+                }
+                kept.push((
+                    score,
+                    serde_json::json!({
+                        "id": id.to_string(),
+                        "kind": kind.to_string(),
+                        // Named `score`, never `confidence`: copying this into an
+                        // Assertion would invent an epistemic commitment out of a
+                        // text match.
+                        "score": score,
+                        "element": rendered.as_ref(),
+                    }),
+                ));
             }
-            let id = ElementId::new(kind, seq);
-            let Some(element) = cx.load(id).await? else {
-                continue;
-            };
-            if element.space() != cx.space || !element.is_active() {
-                continue;
+            if kept.len() >= wanted || exhausted {
+                kept.truncate(wanted);
+                break kept;
             }
-            // The redacted view `load` cached, not a fresh render: a search
-            // snippet is a read, and a mask that hid a field from FIND must
-            // hide it from SEARCH too (§105).
-            let rendered = cx.view_of(id);
-            if let Some(expected) = &with_type
-                && rendered["schema_ref"].as_str() != Some(expected.as_str())
-            {
-                continue;
-            }
-            if let Some(expected) = &with_predicate
-                && rendered["predicate_ref"].as_str() != Some(expected.as_str())
-            {
-                continue;
-            }
-            hits.push((
-                score,
-                serde_json::json!({
-                    "id": id.to_string(),
-                    "kind": kind.to_string(),
-                    // Named `score`, never `confidence`: copying this into an
-                    // Assertion would invent an epistemic commitment out of a
-                    // text match.
-                    "score": score,
-                    "element": rendered.as_ref(),
-                }),
-            ));
-        }
+            window = window.saturating_mul(4);
+        };
+        hits.extend(kept);
     }
     hits.sort_by(|a, b| b.0.partial_cmp(&a.0).unwrap_or(std::cmp::Ordering::Equal));
 
